@@ -22,7 +22,7 @@ var Operators = []string{
 	"dup-definition", "dup-field-name", "dup-tag", "dup-enum-name", "dup-enum-number", "tag-zero", "tag-65536", "tag-2^31",
 	"enum-value-2^31", "enum-value-2^63", "enum-no-zero", "unknown-type", "unknown-import-alias", "service-typed-field", "service-typed-list-element",
 	"service-typed-struct-field", "struct-field-any", "struct-field-message", "struct-field-list", "struct-field-message-ref", "struct-self-recursive",
-	"struct-mutually-recursive", "channel-in-scalar", "channel-out-enum", "channel-in-struct", "input-scalar", "output-scalar", "import-missing",
+	"struct-mutually-recursive", "struct-cycle-behind-outer", "channel-in-scalar", "channel-out-enum", "channel-in-struct", "input-scalar", "output-scalar", "import-missing",
 	"import-cycle", "import-empty-package", "dup-import-alias", "generated-name-collision", "dup-method", "list-of-any", "list-of-message", "empty-struct",
 	"field-named-clone", "field-named-unwrap", "lex-unterminated-comment", "lex-unterminated-string", "lex-bad-char", "lex-float-token",
 }
@@ -280,6 +280,29 @@ func Mutate(src gen.Src, base *Set, op string) (*Set, *Mutation, bool) {
 		st.file.Defs = append(st.file.Defs, other)
 		st.def.Fields = append(st.def.Fields, Field{Name: "zz_other", Type: Type{Name: "ZzOther"}})
 		m.Names, m.Pkg, m.Desc = []string{"zz_other", "back", st.def.Name, "ZzOther"}, st.pkg, "two structs containing each other"
+	case "struct-cycle-behind-outer":
+		// a cycle of 2..3 new structs, and a struct (or a chain of two) that is not on the cycle but embeds a
+		// member of it, declared BEFORE the cycle members (order matters for searches that remember visited nodes)
+		st, ok := pick(src, structs)
+		if !ok {
+			return nil, nil, false
+		}
+		n := 2 + src.Intn(2, "cyclen")
+		var cyc []*Def
+		for i := 0; i < n; i++ {
+			cyc = append(cyc, &Def{Kind: DefStruct, Name: fmt.Sprintf("ZzCyc%d", i)})
+		}
+		for i, d := range cyc {
+			d.Fields = []Field{{Name: "flag", Type: Type{Name: "bool"}}, {Name: "next", Type: Type{Name: cyc[(i+1)%n].Name}}}
+		}
+		outer := &Def{Kind: DefStruct, Name: "ZzOuter", Fields: []Field{{Name: "id", Type: Type{Name: "int64"}}, {Name: "inner", Type: Type{Name: cyc[src.Intn(n, "cycmember")].Name}}}}
+		front := []*Def{outer}
+		if src.Intn(2, "outerchain") == 0 {
+			front = []*Def{{Kind: DefStruct, Name: "ZzTop", Fields: []Field{{Name: "mid", Type: Type{Name: "ZzOuter"}}}}, outer}
+		}
+		st.file.Defs = append(front, st.file.Defs...)
+		st.file.Defs = append(st.file.Defs, cyc...)
+		m.Names, m.Pkg, m.Desc = []string{"ZzCyc0", "ZzCyc1", "ZzCyc2", "next", "ZzOuter", "inner"}, st.pkg, fmt.Sprintf("cycle of %d structs behind a struct that is declared before them", n)
 	case "channel-in-scalar", "channel-out-enum", "channel-in-struct", "input-scalar", "output-scalar", "dup-method":
 		st, ok := pick(src, svcs)
 		if !ok {
